@@ -298,7 +298,7 @@ class LogCapture(logging.Handler):
             self.last_exc = logging.Formatter().formatException(record.exc_info) if record.exc_info else msg
 
 
-def build(ns, spec, src, conf_kw=None):
+def build(ns, spec, src, conf_kw=None, hook=None):
     """exec the source, instantiate. Returns Built with .obj, .consumers, .rec (ordered observations)."""
     from pysyncobj import SyncObj, SyncObjConf, SyncObjConsumer, replicated, replicated_sync
     rec = []
@@ -308,10 +308,26 @@ def build(ns, spec, src, conf_kw=None):
     kw = dict(autoTick=False, dynamicMembershipChange=False, useFork=False)
     kw.update(conf_kw or {})
     conf = SyncObjConf(**kw)
-    conf.onCodeVersionChanged = lambda old, new: rec.append(("verChanged", old, new))
+    b = Built()
+
+    def default_hook(old, new):
+        # What the user's hook sees: getCodeVersion() and what a replicated call issued FROM THE HOOK resolves to
+        # (a real call on every method of the object and of every consumer, `_applyCommand` intercepted).
+        probe = []
+        for (o, orig) in sorted({(o, nm) for o, nm, _ in decls_of(spec)}):
+            key = orig if o == 0 else (id(b.targets[o]), orig)
+            try:
+                fn = b.obj._getFuncName(key)
+            except KeyError:
+                fn = None
+            cid = call_id(b, o, orig)
+            b.hook_calls += 1
+            probe.append((o, orig, fn, cid))
+        rec.append(("verChanged", old, new, b.obj.getCodeVersion(), probe))
+    conf.onCodeVersionChanged = hook if hook is not None else default_hook
     consumers = [g["C%d" % o]() for o in range(1, len(spec["objs"]))]
     obj = g["Obj"](ns["Node"]("a"), [], conf=conf, consumers=consumers, transportClass=ns["DummyTransport"])
-    b = Built()
+    b.hook_calls = 0
     b.ns, b.spec, b.src, b.obj, b.consumers, b.rec, b.conf, b.g = ns, spec, src, obj, consumers, rec, conf, g
     b.targets = [obj] + consumers
     return b
@@ -510,6 +526,11 @@ def canon_real_events(b, rec, arg2idx):
             else:
                 o, orig, v, x = res
                 out.append(["cb", cbid, [[v, o, name_json("%s_v%d" % (orig, v))], x], err == 0])
+        elif r[0] == "verChanged" and len(r) == 5:
+            _, old, new, seen, probe = r
+            tab = sorted([o, name_json(orig), name_json(fn), cid] for o, orig, fn, cid in probe if fn is not None)
+            # a key with a name but no id / an id without a name cannot be expressed by the model: shows as a diff
+            out.append(["verChanged", old, new, seen, tab])
         elif r[0] in ("verChanged", "wrongVer", "blocked", "unknownId"):
             out.append(list(r))
         else:
